@@ -4,6 +4,10 @@
  *   chan <mutex|sync|spin|single> <sync|mutex|busy> <requested capacity> <nread> <k1> <k2> ...
  *        one reader (thread 0) that reads <nread> messages; writer i (thread i) sends k_i
  *        messages tagged i*100+j; a writer retries on FULL after a harness yield point
+ *   chanflags <flags> <requested capacity> <nread> <k1> <k2> ...
+ *        the same with the RAW flags integer handed to muggle_channel_init (valid, invalid and
+ *        out-of-range selectors in either nibble, higher bits); which lock / mode that selects is
+ *        NOT decided here: the cells are named after what init created
  *   abq <capacity> <nproducers> <k1> .. <kP> <c1> .. <cC>
  *        producers are threads 0..P-1 (tags (i+1)*100+j), consumers take c_i items each
  *   dbuf <capacity> <nonblocking 0|1> <total> <k1> <k2> ...
@@ -28,6 +32,7 @@ typedef struct { int tag; volatile int field; } payload_t;
 
 static char scen[16], sched[4096];
 static int wkind, rmode, reqcap, nread, nw, maxtry;
+static int rawflags, cflags;    /* chanflags: the flags argument as given */
 static int kmsg[MAXW + 1];        /* per writer/producer message count (index 1..nw) */
 static int ctake[MAXW + 1], ncons;
 static int nonblock, total;
@@ -141,7 +146,7 @@ static void dbuf_writer(void *arg)
 /* ---------------- protocol ---------------- */
 static void case_begin(void)
 {
-	scen[0] = 0; strcpy(sched, "rand 1 50 0 0"); nw = 0; ncons = 0; maxtry = 0;
+	scen[0] = 0; strcpy(sched, "rand 1 50 0 0"); nw = 0; ncons = 0; maxtry = 0; rawflags = 0; cflags = 0;
 }
 
 static int kind_of(const char *s)
@@ -166,6 +171,14 @@ static void case_line(char *line)
 		if (sscanf(p, "%15s %15s %d %d%n", a, b, &reqcap, &nread, &used) != 4) return;
 		p += used;
 		wkind = kind_of(a); rmode = rmode_of(b);
+		nw = 0;
+		int k;
+		while (nw < MAXW && sscanf(p, "%d%n", &k, &used) == 1) { p += used; kmsg[++nw] = k; }
+		strcpy(scen, "chan");
+	} else if (strcmp(op, "chanflags") == 0) {
+		if (sscanf(p, "%d %d %d%n", &cflags, &reqcap, &nread, &used) != 3) return;
+		p += used;
+		rawflags = 1;
 		nw = 0;
 		int k;
 		while (nw < MAXW && sscanf(p, "%d%n", &k, &used) == 1) { p += used; kmsg[++nw] = k; }
@@ -209,16 +222,25 @@ static void case_end(void)
 	vs_reset();
 	vs_set_schedule(sched);
 	if (strcmp(scen, "chan") == 0) {
-		int rc = muggle_channel_init(&chan, (muggle_sync_t)reqcap, wkind | (rmode << 4));
+		int rc = muggle_channel_init(&chan, (muggle_sync_t)reqcap, rawflags ? cflags : (wkind | (rmode << 4)));
 		printf("F init %d cap=%u\n", rc, (unsigned)chan.capacity);
 		if (rc != 0) return;
 		vs_name(&chan.write_cursor, "wcur");
 		vs_name(&chan.read_cursor, "rcur");
-		if (wkind == 0) vs_name(&chan.write_mutex->mtx, "wlock");
-		else vs_name(&chan.write_synclock, "wlock");
-		if (rmode == 1) {
-			vs_name(&chan.read_mutex->mtx, "rmx");
-			vs_name(&chan.read_cv->cond_var, "rcv");
+		if (rawflags) {
+			/* named after what init created (init_flags bit 0 = write mutex, as in c01_dispatch.c;
+			 * memset by init, so read_mutex / read_cv are NULL unless created) */
+			if ((chan.init_flags & 1) && chan.write_mutex) vs_name(&chan.write_mutex->mtx, "wlock");
+			else vs_name(&chan.write_synclock, "wlock");
+			if (chan.read_mutex) vs_name(&chan.read_mutex->mtx, "rmx");
+			if (chan.read_cv) vs_name(&chan.read_cv->cond_var, "rcv");
+		} else {
+			if (wkind == 0) vs_name(&chan.write_mutex->mtx, "wlock");
+			else vs_name(&chan.write_synclock, "wlock");
+			if (rmode == 1) {
+				vs_name(&chan.read_mutex->mtx, "rmx");
+				vs_name(&chan.read_cv->cond_var, "rcv");
+			}
 		}
 		vs_spawn(chan_reader, NULL);
 		for (int w = 1; w <= nw; w++) vs_spawn(chan_writer, (void *)(long)w);
